@@ -65,7 +65,7 @@ theorem execIL_mono_aux (ms : MacroSem) (subs : SubEnv) (f : Nat) :
         by_cases hs : fn.startsWith "hex_" = true
         · rw [if_pos hs] at h ⊢
           cases hl : lookupS (fn.drop 4).toString subs with
-          | none => rw [hl] at h; simp at h
+          | none => rw [hl] at h; exact h     -- specification-level routines: no fuel involved
           | some pb =>
             obtain ⟨ps, body⟩ := pb
             rw [hl] at h
@@ -142,6 +142,7 @@ theorem execC_mono_aux (ms : MacroSem) (f : Nat) :
       | skip w => simp only [execC] at h ⊢; exact h
       | exprstmt e => simp [execC] at h
       | ret e => simp [execC] at h
+      | vcall n x a p => simp [execC] at h
     · intro ss σ σ' h
       cases ss with
       | nil => simpa [execCs] using h
